@@ -23,7 +23,7 @@ mutual
     | .fcall n args => by simp [norm, elabExpr, elabArgs_norm args]
     | .member e n args => by simp [norm, elabExpr, elab_norm e, elabArgs_norm args]
     | .setm e no a => by simp [norm, elabExpr]
-    | .item e no => by simp [norm, elabExpr]
+    | .item e no => by simp [norm, elabExpr, elab_norm e]
     | .un op enc x => by simp [norm, elabExpr, elab_setEnc, elab_norm x]
     | .bin op enc a b => by simp [norm, elabExpr, elab_norm a, elab_norm b]
   theorem elabArgs_norm : ∀ as : List PExpr, elabArgs (normArgs as) = elabArgs as
